@@ -6,9 +6,13 @@ cd /repo || exit 3
 if ! git diff --quiet; then echo "/repo has uncommitted changes"; exit 3; fi
 git apply /verif/seeded/$SEED/patch.diff || { echo "patch does not apply"; exit 3; }
 cd /verif
+# the evidence file must describe the unchanged tree: keep it aside
+cp evidence/$PROP.json /tmp/tryseed_evid_$PROP.json 2>/dev/null
 ./vcheck $PROP --tier $TIER > /tmp/tryseed_${SEED}_${PROP}.log 2>&1
 RC=$?
 git -C /repo checkout -- .
+cp evidence/$PROP.json /tmp/tryseed_${SEED}_${PROP}.evidence.json 2>/dev/null
+if [ -f /tmp/tryseed_evid_$PROP.json ]; then mv /tmp/tryseed_evid_$PROP.json evidence/$PROP.json; fi
 echo "seed=$SEED prop=$PROP tier=$TIER rc=$RC"
 grep -E "^VIOLATION|^HARNESS-ERROR|tier=" /tmp/tryseed_${SEED}_${PROP}.log | head -8
 exit 0
